@@ -187,8 +187,109 @@ def order_rule(f):
                    'but detection_webs() couples the identity block and the no-output rows to the first `outs` positions' % hir.pp(init)[:80])
 
 
+# ---------------------------------------------------------------- D6: make_bipartite replaces an edge, never deletes one; bare wires
+
+MB = 'graph::GraphLike::make_bipartite'
+
+
+def bipartite_rule(f):
+    """[(slot, ok, msg)]: every edge that make_bipartite removes is replaced by a two-edge path through a fresh spider of the opposite colour, on every path;
+    only same-typed pairs are split; the fresh spider is phase-free."""
+    res = []
+
+    def is_ev(n):
+        return n.get('k') == 'MethodCall' and n['name'] in ('remove_edge', 'add_edge', 'add_edge_with_type', 'add_edge_smart', 'add_vertex_with_data', 'add_vertex', 'add_vertex_with_phase') and hir.local_name(n['recv']) == 'self'
+    loops = [n for n in hir.find(f['hir'], 'For') if any(is_ev(x) and x['name'] == 'remove_edge' for x in hir.nodes(n['body']))]
+    if len(loops) != 1:
+        return [('shape', None, 'the loop over the edges that removes and re-routes same-coloured edges was not found (not-established-by-recognised-idiom)')]
+    body = hir.stmts_of(loops[0]['body'])
+    eps = paths.effect_paths(body, is_ev)
+    n_rm = 0
+    bad = None
+    for p in eps:
+        names = [e['name'] for e in p.events if isinstance(e, dict)]
+        if 'remove_edge' not in names:
+            continue
+        n_rm += 1
+        rm = [e for e in p.events if isinstance(e, dict) and e['name'] == 'remove_edge'][0]
+        after = p.events[p.events.index(rm) + 1:]
+        adds = [e for e in after if isinstance(e, dict) and e['name'].startswith('add_edge')]
+        newv = [e for e in p.events if isinstance(e, dict) and e['name'].startswith('add_vertex')]
+        a, b = rm['args'][0], rm['args'][1]
+        ok = len(adds) == 2 and len(newv) == 1 and p.end in ('end',)
+        if ok:
+            # the two new edges join a and b to the fresh vertex
+            ends = []
+            for e in adds:
+                for x in e['args'][:2]:
+                    if hir.same_expr(x, a):
+                        ends.append('a')
+                    elif hir.same_expr(x, b):
+                        ends.append('b')
+            ok = sorted(ends) == ['a', 'b']
+        if not ok and bad is None:
+            bad = ('on the path [%s] the edge (%s, %s) is removed and %s: the edge is deleted from the diagram (a wire between two boundaries disappears)' % (
+                '; '.join(p.cond_texts())[:120], hir.pp(a)[:12], hir.pp(b)[:12],
+                'the iteration is left (%s) before it is re-routed' % p.end if p.end != 'end' else 'not replaced by the two-edge path through one fresh vertex (found %d new edges, %d new vertices)' % (len(adds), len(newv))))
+    res.append(('every-removed-edge-is-rerouted', n_rm >= 1 and bad is None, bad or 'no path removes an edge'))
+    # only same-typed pairs; opposite colour; phase-free
+    pm = hir.parent_map(f['hir'])
+    rms = [n for n in hir.nodes(loops[0]['body']) if is_ev(n) and n['name'] == 'remove_edge']
+    same = False
+    for c in paths.dominating_conds(rms[0], pm):
+        if c[0] == 'cond' and c[2]:
+            e = hir.strip(c[1])
+            if e.get('k') == 'Binary' and e['op'] == 'Eq' and 'type' in hir.pp(e):
+                same = True
+    res.append(('only-same-coloured-neighbours', same, 'an edge may be split only when both ends have the same type'))
+    tbl = {}
+    for m in hir.find(loops[0]['body'], 'Match'):
+        for arm in m['arms']:
+            pc = hir.pat_ctor(arm['pat']) or (hir.def_path({'k': 'Path', 'res': arm['pat'].get('res', {})}) if arm['pat'].get('k') == 'Path' else None) or ''
+            bd = hir.def_path(hir.strip(arm['body'])) or ''
+            if pc.startswith('graph::VType::') and bd.startswith('graph::VType::'):
+                tbl[pc[-1]] = bd[-1]
+    res.append(('opposite-colour', tbl == {'X': 'Z', 'Z': 'X'}, 'the inserted spider must have the opposite colour of the two it separates (X<->Z); found %s' % tbl))
+    nv = [n for n in hir.nodes(loops[0]['body']) if is_ev(n) and n['name'] == 'add_vertex_with_data']
+    phase_free = False
+    if len(nv) == 1:
+        st = hir.strip(nv[0]['args'][0])
+        if st.get('k') == 'Struct':
+            d = dict(st['fields'])
+            phase_free = 'phase' in d and (hir.callee(hir.strip(d['phase'])) or '').endswith('zero') and 'vars' in d and (hir.callee(hir.strip(d['vars'])) or '').endswith('default')
+    elif any(is_ev(n) and n['name'] == 'add_vertex' for n in hir.nodes(loops[0]['body'])):
+        phase_free = True
+    res.append(('phase-free-identity-spider', phase_free, 'the inserted spider must carry phase 0 and no parameters (it is an identity)'))
+    return res
+
+
+def bare_wire_rule(fdw, fon):
+    """boundaries that are not attached to a spider take no part: only spiders are collected as boundary-adjacent, and such boundaries are left out of the node order"""
+    res = []
+    pm = hir.parent_map(fdw['hir'])
+    pushes = [c for c in hir.calls(fdw['hir']) if c.get('k') == 'MethodCall' and c['name'] == 'push' and hir.local_name(c['recv']) == 'outputs']
+    ok = False
+    for c in pushes:
+        for d in paths.dominating_conds(c, pm):
+            if d[0] == 'cond':
+                r = _cmp_type_b(d[1], [hir.local(c['args'][0])[1]] if hir.local(c['args'][0]) else [])
+                if (r == ['ne'] and d[2]) or (r == ['eq'] and not d[2]):
+                    ok = True
+    res.append(('boundary-adjacent-are-spiders', ok and len(pushes) == 1, 'the vertices collected as boundary-adjacent must be spiders (`vertex_type(w) != B`): with a bare wire the far boundary is counted as a spider, the block sizes no longer add up (subtraction overflow)'))
+    # ordered_nodes: the vertex list excludes boundaries without a spider neighbour
+    excl = False
+    for n in hir.nodes(fon['hir']):
+        if n.get('k') == 'Closure':
+            txt = hir.pp(n['body'])
+            if 'neighbors' in txt and 'vertex_type' in txt and ('any' in txt or 'all' in txt):
+                excl = True
+    res.append(('bare-boundaries-left-out', excl, 'a boundary whose neighbours are all boundaries must be left out of the node order (it would occupy a row of the identity block without a column)'))
+    return res
+
+
 def run(ck):
-    ck.decided('D3 the column offset pw() recomputes (g.inputs().len() + g.outputs().len()) is the width of the identity block: the width is the length of the very vector installed with set_outputs, unmodified in between, inputs emptied, nothing changes them before pw() runs; pw() looks nodes up as index_map[col - n_outs] over all columns',
+    ck.decided('D6 make_bipartite re-routes every edge it removes through one fresh phase-free spider of the opposite colour on every path (it never deletes an edge), splits only same-coloured pairs, and runs first; boundaries not attached to a spider (bare wires) are not counted as boundary-adjacent spiders and are left out of the node order',
+               'D3 the column offset pw() recomputes (g.inputs().len() + g.outputs().len()) is the width of the identity block: the width is the length of the very vector installed with set_outputs, unmodified in between, inputs emptied, nothing changes them before pw() runs; pw() looks nodes up as index_map[col - n_outs] over all columns',
                'D4 the matrix whose null space is taken has the block structure [[I_outs;0 | N],[I_2outs | 0]] (symbolic shapes, every vstack/hstack dimension-consistent)',
                'D5 pw(): Z spiders and X spiders mark two different edge sets over all incident edges; both -> Y, X only -> Z, Z only -> X; every basis vector becomes one returned web; set_edge/edge share the (min,max) key',
                'D1 inputs and outputs are restored: on every path to return the last set_inputs/set_outputs writes back the value saved before the first setter, each to its own setter',
@@ -238,6 +339,17 @@ def run(ck):
         ck.violation('R-PAIR-collect', DW + '/every-basis-vector', ck.site(DW), msg)
     else:
         ck.ob('R-PAIR-collect', DW + '/every-basis-vector', ok, ck.site(DW), msg)
+    # D6: make_bipartite (graph.rs, the first thing detection_webs does) and bare wires
+    fmb = ck.fn(MB)
+    for slot, ok, msg in bipartite_rule(fmb):
+        if ok is None:
+            ck.violation('R-PAIR-reroute', MB + '/' + slot, ck.site(MB), msg)
+        else:
+            ck.ob('R-PAIR-reroute', MB + '/' + slot, ok, ck.site(MB), msg)
+    ck.ob('R-PAIR-reroute', DW + '/bipartite-first', bool(hir.stmts_of(f['hir'])) and any(c.get('k') == 'MethodCall' and c['name'] == 'make_bipartite' for s0 in hir.stmts_of(f['hir'])[:2] for c in hir.calls(s0)), ck.site(DW),
+          'detection_webs must convert the diagram to bipartite form before anything else (the firing model needs every edge to join different colours)')
+    for slot, ok, msg in bare_wire_rule(f, on):
+        ck.ob('R-DOMAIN-bare-wire', DW + '/' + slot, ok, ck.site(DW), msg)
     # key normalisation of PauliWeb: set_edge and edge use the same (min, max) key
     keys = {}
     for m in ('set_edge', 'edge'):
